@@ -357,8 +357,12 @@ class Interp:
             self.c.assume(f)
         has_cond = cond is not None and cond.get("kind")
         cz = self.to_bool(self.ev(cond, fr)) if has_cond else z3.BoolVal(True)
+        variant_fn = getattr(self, "loop_variant", {}).get(key)
+        self.loops_seen = getattr(self, "loops_seen", {})
+        self.loops_seen[(fr.fn, ordn)] = "counted" if counter else ("variant" if variant_fn else "none")
         if self.c.branch(cz):
             saved_loops = fr.loops
+            v0 = variant_fn(self, fr) if variant_fn else None
             try:
                 try:
                     self.exec(body, fr)
@@ -372,8 +376,12 @@ class Interp:
                 return
             for k_, f in enumerate(invariant("preserve")):
                 self.c.oblige("%s/invariant-preserved.%d" % (P, k_), f, "ensures")
-            if counter and counter.get("variant"):
-                pass
+            if variant_fn:
+                v1 = variant_fn(self, fr)
+                self.c.oblige("%s/variant-decreases-and-is-bounded" % P, z3.And(v1 < v0, v0 > 0), "ensures")
+            elif not counter and getattr(self, "require_variants", False):
+                self.c.oblige("%s/has-a-variant" % P, z3.BoolVal(False), "ensures",
+                              "loop is neither counted nor given a variant")
             raise PathAbort("end of arbitrary loop iteration")
         # exit: continue after the loop (state = havocked state + invariant + not cond)
         if not has_cond:
